@@ -198,6 +198,18 @@ L:
 	i++
 	if i < 2 { goto L }
 }`,
+	// whole-program escape fixpoint: a summary that grows in a second round, used from two sibling blocks of a
+	// mutually recursive caller
+	"esc.recTwoSites": `type ET struct{ v string }
+var EG *ET
+func leakFirst(a, b *ET, k int) { EG = a; if k > 0 { twoSites(nil, nil, b, k-1) } }
+func twoSites(x, y, w *ET, k int) { if rt.Cond() { leakFirst(w, x, k) } else { leakFirst(nil, y, k) } }
+func main() { x := &ET{rt.Source1()}; y := &ET{"b"}; w := &ET{"c"}; twoSites(x, y, w, 3); rt.Sink1(EG) }`,
+	"esc.recThreeSites": `type ET struct{ v string }
+var EG *ET
+func leak1(a, b, c *ET, k int) { EG = a; if k > 0 { sites(nil, nil, b, c, k-1) } }
+func sites(x, y, z, w *ET, k int) { switch { case rt.Cond(): leak1(w, x, nil, k); case rt.Cond(): leak1(nil, y, w, k); default: leak1(nil, nil, z, k) } }
+func main() { x := &ET{rt.Source1()}; y := &ET{"b"}; z := &ET{"d"}; w := &ET{"c"}; sites(x, y, z, w, 3); rt.Sink1(EG) }`,
 	// field-sensitivity shapes: one struct value whose fields take different routes through a callee
 	"fs.convertFields": `type In struct{ User, Path string }
 type Out struct{ Who, Where string }
